@@ -129,6 +129,27 @@ class WFresh:
         return WVec(self.d, self.frame or "G", self.n, ("e", self.first, self.mid, self.last))
 
 
+class WIdx:
+    """loop index running over all positions of a vector (for i, x in enumerate(vec) / for i in range(len(vec)))"""
+
+    def __init__(self, n, vec=None):
+        self.n, self.vec = n, vec
+
+
+class WElems:
+    """scalar inside element loops: scalar * product of vec[i] over (index, vector) pairs"""
+
+    def __init__(self, pairs, scalar=sp.Integer(1)):
+        self.pairs, self.scalar = list(pairs), scalar
+
+
+class WPos:
+    """index list of an N-D array built in element loops: entries {axis: WIdx}, 0 elsewhere"""
+
+    def __init__(self, ndims, entries=None):
+        self.ndims, self.entries = ndims, dict(entries or {})
+
+
 class WFn:
     def __init__(self, name, node=None, env=None):
         self.name, self.node, self.env = name, node, env
@@ -164,6 +185,27 @@ def _vop(op, a, b):
         b = b.vec()
     if isinstance(a, sp.Basic) and isinstance(b, sp.Basic):
         return sc(a, b)
+    if isinstance(a, WElems) or isinstance(b, WElems):
+        if isinstance(op, ast.Mult) and all(isinstance(x, (WElems, sp.Basic)) for x in (a, b)):
+            pa = a.pairs if isinstance(a, WElems) else []
+            pb = b.pairs if isinstance(b, WElems) else []
+            if any(i1 is i2 for i1, _ in pa for i2, _ in pb):
+                # two elements taken at the same loop index: the element of the product vector
+                merged = []
+                for i1, v1 in pa:
+                    m_ = [v2 for i2, v2 in pb if i2 is i1]
+                    merged.append((i1, _vop(op, v1, m_[0]) if m_ else v1))
+                merged += [(i2, v2) for i2, v2 in pb if not any(i2 is i1 for i1, _ in pa)]
+                pairs = merged
+            else:
+                pairs = pa + pb
+            return WElems(pairs, (a.scalar if isinstance(a, WElems) else a) * (b.scalar if isinstance(b, WElems) else b))
+        if isinstance(op, ast.Div) and isinstance(a, WElems) and isinstance(b, sp.Basic):
+            return WElems(a.pairs, a.scalar / b)
+        if isinstance(op, ast.Pow) and isinstance(a, WElems) and isinstance(b, sp.Basic) and len(a.pairs) == 1:
+            i1, v1 = a.pairs[0]
+            return WElems([(i1, _vop(op, v1, b))], a.scalar ** b)
+        raise WUndecided("arithmetic on array elements inside element loops other than products")
     if isinstance(a, WTensor) or isinstance(b, WTensor):
         if not isinstance(op, ast.Mult):
             raise WUndecided("tensors are only multiplied")
@@ -291,6 +333,8 @@ class WInterp:
                     return base
             if isinstance(base, WOuter) and e.attr == "flat":
                 return base
+            if isinstance(base, WOuter) and e.attr == "T":
+                return WOuter(base.cols, base.rows)
             if isinstance(base, WEmpty) and e.attr == "flat":
                 return base
             raise WUndecided(f"attribute `{s_[:40]}`")
@@ -300,6 +344,10 @@ class WInterp:
                 return WShape(self.const_int(b))
             if isinstance(b, list) and isinstance(e.op, ast.Mult) and self.const_int(a) is not None and len(b) == 1 and b[0] == 1:
                 return WShape(self.const_int(a))
+            for x_, y_ in ((a, b), (b, a)):
+                if isinstance(x_, list) and len(x_) == 1 and isinstance(x_[0], sp.Basic) and x_[0] == 0 and isinstance(e.op, ast.Mult) \
+                        and self.const_int(y_) is not None:
+                    return WPos(self.const_int(y_))
             if a is None or b is None or isinstance(a, (bool, list, tuple)) or isinstance(b, (bool, list, tuple)):
                 raise WUndecided(f"operands of `{src(e)[:40]}`")
             return _vop(e.op, a, b)
@@ -321,6 +369,8 @@ class WInterp:
                 return tuple(vals)
             if vals and all(isinstance(v, sp.Basic) and v == 1 for v in vals):
                 return WShape(len(vals)) if len(vals) > 1 else [1]
+            if len(vals) > 1 and all(isinstance(v, sp.Basic) and v == 0 for v in vals):
+                return WPos(len(vals))
             return vals
         if isinstance(e, ast.Compare) and len(e.ops) == 1:
             return self.compare(e, env)
@@ -422,6 +472,10 @@ class WInterp:
                 lo, hi = self.slice_bounds(sl, env)
                 return self.vslice(base, lo, hi, e)
             i = self.ev(sl, env)
+            if isinstance(i, WIdx):
+                if not _same(i.n, base.n):
+                    raise WUndecided(f"`{src(e)[:40]}`: the loop does not run over the length of the vector")
+                return WElems([(i, base)])
             c = self.const_int(i)
             if c is None:
                 raise WUndecided(f"index `{src(e)[:40]}`")
@@ -470,7 +524,8 @@ class WInterp:
     def call(self, e, env):
         f = src(e.func)
         args = [self.ev(a, env) for a in e.args]
-        kw = {k.arg: self.ev(k.value, env) for k in e.keywords}
+        # the element type / memory order of an array does not enter the weights as formulas
+        kw = {k.arg: self.ev(k.value, env) for k in e.keywords if k.arg not in ("dtype", "order", "copy", "like")}
         if f in ("np.array", "np.asarray", "numpy.array") and len(args) == 1 and isinstance(args[0], (WVec, WFresh)):
             return args[0]
         if f in ("np.empty", "np.zeros", "np.ndarray") and args:
@@ -493,6 +548,50 @@ class WInterp:
             return WOuter(*[a.vec() if isinstance(a, WFresh) else a for a in args])
         if f == "len" and len(args) == 1 and isinstance(args[0], (WVec, WFresh)):
             return args[0].n
+        if f == "tuple" and len(args) == 1 and isinstance(args[0], WPos):
+            return args[0]
+        if f in ("np.transpose",) and len(args) == 1 and isinstance(args[0], WOuter) and not kw:
+            return WOuter(args[0].cols, args[0].rows)
+        if f == "np.einsum" and len(e.args) == 3 and isinstance(e.args[0], ast.Constant) and isinstance(e.args[0].value, str) and not kw:
+            spec = e.args[0].value.replace(" ", "")
+            vs = [a.vec() if isinstance(a, WFresh) else a for a in args[1:]]
+            if all(isinstance(a, WVec) for a in vs) and "->" in spec:
+                ins, out = spec.split("->")
+                parts = ins.split(",")
+                if len(parts) == 2 and len(parts[0]) == 1 and len(parts[1]) == 1 and parts[0] != parts[1] and sorted(out) == sorted(parts[0] + parts[1]):
+                    return WOuter(vs[0], vs[1]) if out == parts[0] + parts[1] else WOuter(vs[1], vs[0])
+            raise WUndecided(f"`{src(e)[:50]}`")
+        if f in ("np.concatenate", "np.hstack") and len(e.args) == 1 and isinstance(e.args[0], (ast.Tuple, ast.List)) and \
+                len(e.args[0].elts) == 3 and not kw:
+            # ([a], mid, [b]) : one scalar, a one-formula vector, one scalar -> region-wise vector
+            parts = [self.ev(x, env) for x in e.args[0].elts]
+
+            def one(x):
+                if isinstance(x, (list, tuple)) and len(x) == 1 and isinstance(x[0], sp.Basic):
+                    return x[0]
+                return None
+            a, m, b = one(parts[0]), parts[1], one(parts[2])
+            if isinstance(m, WVec) and m.shape[0] == "w":
+                m = m.localised()
+            if a is not None and b is not None and isinstance(m, WVec) and m.shape[0] == "u":
+                fm = m.shape[1]
+                return WVec(m.d, m.frame, m.n + 2, ("e", a, (lambda k: fm(k - 1)), b))
+            raise WUndecided(f"`{src(e)[:50]}`")
+        if f in ("np.append", "np.insert") and not kw and all(isinstance(a, (WVec, sp.Basic)) for a in args):
+            # np.append(v, c): v followed by the scalar c ; np.insert(v, 0, c): the scalar c followed by v
+            if f == "np.append" and len(args) == 2 and isinstance(args[0], WVec) and isinstance(args[1], sp.Basic):
+                v, c = args[0], args[1]
+                v = v.localised() if v.shape[0] == "w" else v
+                if v.shape[0] == "u":
+                    fm = v.shape[1]
+                    return WVec(v.d, v.frame, v.n + 1, ("e", fm(sp.Integer(0)), fm, c))
+            if f == "np.insert" and len(args) == 3 and isinstance(args[0], WVec) and self.const_int(args[1]) == 0 and isinstance(args[2], sp.Basic):
+                v, c = args[0], args[2]
+                v = v.localised() if v.shape[0] == "w" else v
+                if v.shape[0] == "u":
+                    fm = v.shape[1]
+                    return WVec(v.d, v.frame, v.n + 1, ("e", c, (lambda k: fm(k - 1)), fm(v.n - 1)))
+            raise WUndecided(f"`{src(e)[:50]}`")
         if isinstance(e.func, ast.Attribute) and e.func.attr in ("reshape",):
             base = self.ev(e.func.value, env)
             if isinstance(base, WFresh):
@@ -505,6 +604,11 @@ class WInterp:
                     if not _same(v, base.n):
                         raise WUndecided("reshape to a different size")
                     return WTensor(sh.ndims, {k: base})
+            if isinstance(base, WOuter) and isinstance(sh, WShape) and not any(k.arg == "order" for k in e.keywords):
+                # reshape keeps the C order of the elements: the same question as filling through .flat
+                tmp = WEmpty(sh)
+                self.fill(tmp, base, e, how="reshaped")
+                return tmp.filled
             raise WUndecided(f"`{src(e)[:50]}`")
         if isinstance(e.func, ast.Attribute) and e.func.attr == "copy" and not args:
             return self.ev(e.func.value, env)
@@ -575,6 +679,27 @@ class WInterp:
         if isinstance(st, ast.AnnAssign) and st.value is not None:
             self.store(st.target, self.ev(st.value, env), env, st)
             return
+        if isinstance(st, ast.For) and not st.orelse:
+            # element loop over all positions of a vector: the body is read once with the index and the element symbolic
+            it = st.iter
+            if isinstance(it, ast.Call) and src(it.func) == "enumerate" and len(it.args) == 1 and isinstance(st.target, ast.Tuple) and \
+                    len(st.target.elts) == 2 and all(isinstance(x, ast.Name) for x in st.target.elts):
+                vec = self.ev(it.args[0], env)
+                if isinstance(vec, WFresh):
+                    vec = vec.vec()
+                if isinstance(vec, WVec):
+                    idx = WIdx(vec.n, vec)
+                    env[st.target.elts[0].id] = idx
+                    env[st.target.elts[1].id] = WElems([(idx, vec)])
+                    self.block(st.body, env)
+                    return
+            if isinstance(it, ast.Call) and src(it.func) == "range" and len(it.args) == 1 and isinstance(st.target, ast.Name):
+                n_ = self.ev(it.args[0], env)
+                if isinstance(n_, sp.Basic) and not n_.is_number:
+                    env[st.target.id] = WIdx(n_)
+                    self.block(st.body, env)
+                    return
+            raise WUndecided(f"statement `{src(st)[:40]}`")
         if isinstance(st, ast.AugAssign):
             t = st.target
             if isinstance(t, ast.Subscript):
@@ -662,11 +787,37 @@ class WInterp:
             if isinstance(base, WFresh):
                 self.fresh_store(base, t, v, env)
                 return
+            if isinstance(base, WPos):
+                k = self.ev(t.slice, env)
+                if not isinstance(k, WAxis) or not isinstance(v, WIdx):
+                    raise WUndecided(f"index-list entry `{src(st)[:50]}` (not a loop index at the axis of a dimension)")
+                base.entries[k.d] = v
+                return
+            if isinstance(base, WEmpty):
+                pos = self.ev(t.slice, env)
+                if isinstance(pos, WPos) and isinstance(v, WElems):
+                    sh = base.shape
+                    if pos.ndims != sh.ndims:
+                        raise WUndecided("index list and array have different numbers of axes")
+                    factors = {}
+                    for i_, vec in v.pairs:
+                        ax = [a_ for a_, ix in pos.entries.items() if ix is i_]
+                        if len(ax) != 1:
+                            raise WUndecided("an element is taken at a loop index that is not one entry of the index list")
+                        factors[ax[0]] = vec
+                    if set(factors) != set(pos.entries) or set(factors) != set(sh.entries):
+                        raise WUndecided("the loop indices placed in the index list are not those of the elements stored / of the long axes")
+                    for a_, vec in factors.items():
+                        # a vector of another dimension on this axis is left to the placement rule, which names the two dimensions
+                        if not _same(sh.entries[a_], vec.n) and (vec.d is None or vec.d == a_):
+                            raise WUndecided("element loops do not run over the extent of the axis")
+                    base.filled = WTensor(sh.ndims, factors, v.scalar)
+                    return
             raise WUndecided(f"store `{src(st)[:40]}`")
         raise WUndecided(f"store `{src(st)[:40]}`")
 
-    def fill(self, empty, v, st):
-        """C-order fill of np.empty(shape) from a flat iterator"""
+    def fill(self, empty, v, st, how="written"):
+        """C-order fill of np.empty(shape) from a flat iterator (or C-order reshape to that shape)"""
         sh = empty.shape
         if isinstance(v, WFresh):
             v = v.vec()
@@ -688,7 +839,7 @@ class WInterp:
                 return
             if not (rows.d == second and cols.d == first and rows.frame == cols.frame == "L"):
                 raise WUndecided("flat fill of an outer product whose factors are not the local r and v vectors")
-            raise WViolation(f"`{src(st)[:80]}`: the outer product (rows over {_DN.get(rows.d)}, columns over {_DN.get(cols.d)}) is written "
+            raise WViolation(f"`{src(st)[:80]}`: the outer product (rows over {_DN.get(rows.d)}, columns over {_DN.get(cols.d)}) is {how} "
                              f"in C order into an array whose {_DN[first]} axis precedes its {_DN[second]} axis (layouts ordered "
                              f"{'r before v' if first == 0 else 'v before r'}): the weights are permuted among the (r,v) points "
                              "(their total is preserved, so a constant field still gives the analytic volume)")
@@ -724,10 +875,12 @@ def _axis_spec(d, cls):
 
 def weight_tensor(chk):
     """engine W on the four constructors, one run per configuration (number of dimensions, order of the r and v axes)"""
+    placed = {}
     for rel, cls, meth in CLASSES:
         q = f"{cls}.__init__"
         fn = chk.func(rel, q)
         funcs = _w_functions(chk, rel)
+        placed[cls] = True
         configs = [{"ndims": 4, "order": "rv"}, {"ndims": 4, "order": "vr"}] + ([{"ndims": 3, "order": "rv"}] if cls == "l2" else [])
         for cfg in configs:
             tag = f"{cls} [{cfg['ndims']}-D" + (f", {'r before v' if cfg['order'] == 'rv' else 'v before r'}]" if cfg["ndims"] == 4 else "]")
@@ -735,6 +888,7 @@ def weight_tensor(chk):
             formals = [a.arg for a in fn.args.args]
             if len(formals) != 3:
                 chk.ob("F9-weight-tensor", fn, tag, None, "constructor signature changed", file=rel, func=q)
+                placed[cls] = False
                 continue
             env = {formals[0]: WObj("self"), formals[1]: WObj("eta_grid"), formals[2]: WObj("layout")}
             try:
@@ -744,9 +898,11 @@ def weight_tensor(chk):
                     pass
             except WUndecided as e:
                 chk.ob("F9-weight-tensor", fn, tag, None, f"the construction of the weights is outside the interpreted fragment: {e}", file=rel, func=q)
+                placed[cls] = False
                 continue
             except WViolation as e:
                 chk.ob(e.rule, fn, tag, False, str(e), file=rel, func=q)
+                placed[cls] = False
                 continue
             f1, f2 = w.attrs.get("_factor1"), w.attrs.get("_factor2")
             if isinstance(f1, WEmpty):
@@ -754,6 +910,7 @@ def weight_tensor(chk):
             if not isinstance(f1, WTensor) or not isinstance(f2, sp.Basic):
                 chk.ob("F9-weight-tensor", fn, tag, None, f"self._factor1 / self._factor2 not obtained as a weight tensor and a scalar "
                        f"({type(f1).__name__}, {type(f2).__name__})", file=rel, func=q)
+                placed[cls] = False
                 continue
             # placement: which axes carry weights, and of which dimension
             want_axes = [0, 3] if cfg["ndims"] == 4 else [0]
@@ -772,6 +929,7 @@ def weight_tensor(chk):
                                             f"({getattr(v, 'frame', '?')} frame, length {getattr(v, 'n', '?')})")
             chk.ob("C-axis-placement", fn, tag, okp, whyp, file=rel, func=q)
             if not okp:
+                placed[cls] = False
                 continue
             # the factor of each axis against the quadrature rule of the global grid
             for d in want_axes:
@@ -804,15 +962,42 @@ def weight_tensor(chk):
             chk.ob("F9-volume-factor", fn, f"{tag}: _factor2", ok2,
                    ("1/2 " if cls == "KineticEnergy" else "") + "dq dz (uniform periodic theta and z: rectangle rule)" if ok2 else
                    f"_factor2 = {sp.simplify(f2)}, expected {want2} (h1, h2 the spacings of theta and z)", file=rel, func=q)
+    return placed
 
 
-def weight_windows(chk):
+class _NotElementwise:
+    """stands for the Check while engine C types a constructor: engine C treats every numpy function it does not know as an
+    element-wise one and reports `element-wise combination of axes` for its array arguments.  For functions that combine their
+    arguments in another way (outer products, contractions, stacking) that diagnosis is not true of the code: such obligations are
+    not recorded here - the placement of an outer product is decided by the weight-tensor rules (engine W)."""
+    NAMES = {"outer", "einsum", "kron", "tensordot", "dot", "matmul", "meshgrid", "concatenate", "stack", "hstack", "vstack", "append",
+             "ix_", "inner", "vdot", "cross", "convolve", "broadcast_to", "tile", "repeat", "column_stack", "interp"}
+
+    def __init__(self, chk):
+        object.__setattr__(self, "_chk", chk)
+
+    def __getattr__(self, k):
+        return getattr(self._chk, k)
+
+    def __setattr__(self, k, v):
+        setattr(self._chk, k, v)
+
+    def ob(self, rule, node, construct, ok, msg="", **kw):
+        if ok is False and isinstance(node, ast.Call) and "element-wise combination" in msg:
+            f = node.func
+            name = f.attr if isinstance(f, ast.Attribute) else f.id if isinstance(f, ast.Name) else ""
+            if name in self.NAMES:
+                return None
+        return self._chk.ob(rule, node, construct, ok, msg, **kw)
+
+
+def weight_windows(chk, placed=None):
     """engine C on the constructors: locals that are typed as arrays over a window are the [start:end) block of the global table
     (the sort rules C-sort on starts/ends/inv_dims_order come from the engine itself)"""
     for rel, cls, meth in CLASSES:
         fn = chk.func(rel, f"{cls}.__init__")
         env = {"eta_grid": eta_grid_tag(), "layout": layout_param()}
-        a = IS(chk, rel, f"{cls}.__init__", fn, env, Ctx(dist_dims=None), {})
+        a = IS(_NotElementwise(chk), rel, f"{cls}.__init__", fn, env, Ctx(dist_dims=None), {})
         a.run()
         for name, d in (("mydrMult", 0), ("my_r", 0), ("mydvMult", 3), ("my_v", 3)):
             t = a.env.get(name)
@@ -820,16 +1005,79 @@ def weight_windows(chk):
                 continue
             w = t[1][0]
             ok = True if w == L(d) else False if (w is not None and w[0] in ("G", "P", "L", "Gm")) else None
-            chk.ob("C-window", fn, f"{cls}: {name}", ok, f"`{name}` is the local block of the global {I.DIMNAMES[d]} table" if ok else
-                   f"`{name}` is {I.tname(t)}, not the local block [start:end) of the {I.DIMNAMES[d]} table" +
-                   ("" if ok is False else " (window not typed: decided by the weight-tensor rules)"), file=rel, func=f"{cls}.__init__")
+            why = f"`{name}` is the local block of the global {I.DIMNAMES[d]} table" if ok else \
+                f"`{name}` is {I.tname(t)}, not the local block [start:end) of the {I.DIMNAMES[d]} table" + \
+                ("" if ok is False else " (window not typed: decided by the weight-tensor rules)")
+            if ok is False:
+                # the rule goes by the NAME of the local: after a rewrite the name may denote another table (a global one that is cut
+                # to the block later).  Whether the factor on the axis is the [start:end) block is decided by the weight-tensor rules
+                # (engine W); here a mismatch is only 'not confirmed'
+                if placed is not None and placed.get(cls):
+                    continue
+                ok, why = None, why + " (by the name of the local only: the weight-tensor rules decide the placement)"
+            if ok is None and placed is not None and placed.get(cls):
+                # engine C could not type the table the window is cut from (built with functions it does not model); engine W
+                # followed the construction and established that the factor on this axis is the [start:end) block
+                ok, why = True, (f"`{name}`: engine C does not type the table it is cut from; the weight-tensor rules followed the "
+                                 f"construction: the factor on the {I.DIMNAMES[d]} axis is the [start:end) block of its global table")
+            chk.ob("C-window", fn, f"{cls}: {name}", ok, why, file=rel, func=f"{cls}.__init__")
 
 
 class _Methods2Calls(ast.NodeTransformer):
     """x.conj() -> conj(x), x.real -> real(x), x.sum() -> np.sum(x): the element-wise model knows the function forms"""
 
+    @staticmethod
+    def _flat(x):
+        """x.ravel() / x.flatten() / np.ravel(x) / x.flat / x.reshape(-1) -> x, else None"""
+        if isinstance(x, ast.Call) and isinstance(x.func, ast.Attribute) and x.func.attr in ("ravel", "flatten") and not x.args:
+            return x.func.value
+        if isinstance(x, ast.Call) and src(x.func) in ("np.ravel", "numpy.ravel") and len(x.args) == 1:
+            return x.args[0]
+        if isinstance(x, ast.Call) and isinstance(x.func, ast.Attribute) and x.func.attr == "reshape" and len(x.args) == 1 and src(x.args[0]) == "-1":
+            return x.func.value
+        if isinstance(x, ast.Attribute) and x.attr == "flat":
+            return x.value
+        return None
+
+    def visit_BinOp(self, n):
+        self.generic_visit(n)
+        if isinstance(n.op, ast.MatMult) and self._flat(n.left) is not None and self._flat(n.right) is not None:
+            return self._sum(ast.BinOp(left=self._flat(n.left), op=ast.Mult(), right=self._flat(n.right)))
+        return n
+
+    @staticmethod
+    def _sum(x):
+        return ast.Call(func=ast.Attribute(value=ast.Name(id="np", ctx=ast.Load()), attr="sum", ctx=ast.Load()), args=[x], keywords=[])
+
     def visit_Call(self, n):
         self.generic_visit(n)
+        f = src(n.func)
+        # whole contractions written another way: the sum over all points of the product
+        if f in ("np.einsum", "numpy.einsum") and len(n.args) == 3 and isinstance(n.args[0], ast.Constant) and isinstance(n.args[0].value, str) \
+                and not n.keywords:
+            spec = n.args[0].value.replace(" ", "")
+            if "->" in spec:
+                ins, out = spec.split("->")
+                parts = ins.split(",")
+                if out == "" and len(parts) == 2 and parts[0] == parts[1] and len(set(parts[0])) == len(parts[0]):
+                    return self._sum(ast.BinOp(left=n.args[1], op=ast.Mult(), right=n.args[2]))
+        if f in ("np.dot", "np.vdot", "np.inner", "numpy.dot", "numpy.vdot") and len(n.args) == 2 and not n.keywords and \
+                self._flat(n.args[0]) is not None and self._flat(n.args[1]) is not None:
+            a_, b_ = self._flat(n.args[0]), self._flat(n.args[1])
+            if f.endswith("vdot"):
+                a_ = ast.Call(func=ast.Name(id="conj", ctx=ast.Load()), args=[a_], keywords=[])
+            return self._sum(ast.BinOp(left=a_, op=ast.Mult(), right=b_))
+        if f in ("np.broadcast_to", "numpy.broadcast_to") and n.args:
+            return n.args[0]
+        if f in ("np.multiply", "numpy.multiply") and len(n.args) == 2 and not n.keywords:
+            return ast.BinOp(left=n.args[0], op=ast.Mult(), right=n.args[1])
+        if f in ("np.square", "numpy.square") and len(n.args) == 1 and not n.keywords:
+            return ast.BinOp(left=n.args[0], op=ast.Pow(), right=ast.Constant(value=2))
+        if f in ("np.sum", "numpy.sum") and len(n.args) == 1 and len(n.keywords) == 1 and n.keywords[0].arg == "axis" and \
+                isinstance(n.keywords[0].value, ast.Constant) and n.keywords[0].value.value is None:
+            return self._sum(n.args[0])
+        if self._flat(n) is not None and isinstance(n.func, ast.Attribute) and n.func.attr != "reshape":
+            return self._flat(n)
         if isinstance(n.func, ast.Attribute) and n.func.attr in ("conj", "conjugate") and not n.args and not n.keywords:
             return ast.Call(func=ast.Name(id="conj", ctx=ast.Load()), args=[n.func.value], keywords=[])
         if isinstance(n.func, ast.Attribute) and n.func.attr == "sum" and not n.args and not n.keywords and src(n.func.value) != "np":
@@ -842,6 +1090,24 @@ class _Methods2Calls(ast.NodeTransformer):
         if n.attr in ("real", "imag") and isinstance(n.ctx, ast.Load) and src(n.value) not in ("np", "numpy"):
             return ast.Call(func=ast.Name(id=n.attr, ctx=ast.Load()), args=[n.value], keywords=[])
         return n
+
+
+def _straight_line_env(m, env):
+    """locals of the method's own block written forward: `x = e` binds x, `x op= e` re-binds it to `x op e` (names that are
+    assigned inside branches or loops are left alone)"""
+    import copy
+    from ..resolve import expand
+    env = dict(env)
+    nested = {n.id for st in m.body if not isinstance(st, (ast.Assign, ast.AugAssign)) for n in ast.walk(st)
+              if isinstance(n, ast.Name) and isinstance(n.ctx, ast.Store)}
+    cur = {}
+    for st in m.body:
+        if isinstance(st, ast.Assign) and len(st.targets) == 1 and isinstance(st.targets[0], ast.Name) and st.targets[0].id not in nested:
+            cur[st.targets[0].id] = expand(st.value, {**env, **cur})
+        elif isinstance(st, ast.AugAssign) and isinstance(st.target, ast.Name) and st.target.id in cur and st.target.id not in nested:
+            cur[st.target.id] = ast.BinOp(left=cur[st.target.id], op=copy.deepcopy(st.op), right=expand(st.value, {**env, **cur}))
+    env.update(cur)
+    return env
 
 
 def integrands(chk):
@@ -864,7 +1130,7 @@ def integrands(chk):
         if len(rets) != 1:
             chk.ob("F9-integrand", m, q, None, f"{len(rets)} return statements: not recognised", file=rel, func=q)
             continue
-        e = _Methods2Calls().visit(expand(rets[0].value, inline_locals(m)))
+        e = _Methods2Calls().visit(expand(rets[0].value, _straight_line_env(m, inline_locals(m))))
         ast.fix_missing_locations(e)
         n_ = NpSym(env={"real": lambda z: sp.re(sp.expand(z)), "imag": lambda z: sp.im(sp.expand(z)), "conj": lambda z: sp.conjugate(z),
                         "conjugate": lambda z: sp.conjugate(z), "abs": lambda z: sp.Abs(z), "absolute": lambda z: sp.Abs(z)},
@@ -876,17 +1142,18 @@ def integrands(chk):
             continue
         want = SUMR(want_i[cls], sp.Symbol("axisall")) * F2
         sums = list(got.atoms(SUMR)) if hasattr(got, "atoms") else []
-        oki = False
+        oki = None              # several sums / sums along single axes: not compared
         if len(sums) == 1 and str(sums[0].args[1]) == "axisall":
             inner = sp.simplify(sp.expand(sums[0].args[0]))
             rest = sp.simplify(got / sums[0])
             oki = bool(sp.simplify(inner - sp.expand(want_i[cls])) == 0 and sp.simplify(rest - F2) == 0)
-        elif not sums:
-            oki = None
         # refused in any layout other than the one the weights were built for
         cmp_ = [n for n in ast.walk(m) if isinstance(n, ast.Compare) and len(n.ops) == 1 and
                 {src(n.left), src(n.comparators[0])} == {"self._layout", f"{arg}.currentLayout"}]
-        mentions = any(isinstance(n, ast.Attribute) and src(n) == "self._layout" for n in ast.walk(m))
+        # any other test that speaks of a layout (another attribute, a helper, a name comparison): not recognised, not an alarm
+        mentions = any(isinstance(n, (ast.Assert, ast.If, ast.Raise)) and "layout" in src(n.test if not isinstance(n, ast.Raise) else n).lower()
+                       for n in ast.walk(m)) or any(isinstance(n, ast.Attribute) and src(n) == "self._layout" for n in ast.walk(m)) or \
+            any(isinstance(n, ast.Call) and isinstance(n.func, ast.Attribute) and src(n.func.value) == "self" for n in ast.walk(m))
         oka = True if any(isinstance(parent(c), (ast.Assert, ast.If)) for c in cmp_) else (None if mentions else False)
         ok = False if (oki is False or oka is False) else None if (oki is None or oka is None) else True
         if ok:
@@ -940,22 +1207,77 @@ def _row_writes(col, table="self.diagnostics"):
     """{row: (slot source, value node)} for `table[K, slot] = v` with a constant K and for loops
     `for row, v in enumerate(<tuple>)` / `for row, v in ((K, v), ...)` writing `table[row, slot] = v`; None when a row index
     is computed some other way"""
-    rows = {}
+    class _Rows(dict):
+        pass
+    rows = _Rows()
+    rows.slot_nodes = {}
 
     def put(k, slot, val):
+        rows.slot_nodes.setdefault(src(slot), slot)
         if k in rows:
             rows[k] = (rows[k][0], rows[k][1], True)
         else:
             rows[k] = (src(slot), val, False)
 
+    def full(x):
+        return isinstance(x, ast.Slice) and x.lower is None and x.upper is None and x.step is None
+
+    # views of the table bound to a local once: `c = table[:, slot]` (the column of one slot), `r = table[K]` / `table[K, :]` (a row)
+    views, accounted = {}, set()
     for n in ast.walk(col):
-        if not (isinstance(n, ast.Assign) and len(n.targets) == 1 and isinstance(n.targets[0], ast.Subscript)
-                and src(n.targets[0].value) == table):
+        if isinstance(n, ast.Assign) and len(n.targets) == 1 and isinstance(n.targets[0], ast.Name) and \
+                isinstance(n.value, ast.Subscript) and src(n.value.value) == table:
+            nm = n.targets[0].id
+            stores_nm = [x for x in ast.walk(col) if isinstance(x, ast.Name) and x.id == nm and isinstance(x.ctx, ast.Store)]
+            sl = n.value.slice
+            if len(stores_nm) != 1:
+                return None
+            if isinstance(sl, ast.Tuple) and len(sl.elts) == 2 and full(sl.elts[0]) and not isinstance(sl.elts[1], ast.Slice):
+                views[nm] = ("col", sl.elts[1])
+            elif isinstance(sl, ast.Constant) and isinstance(sl.value, int):
+                views[nm] = ("row", sl)
+            elif isinstance(sl, ast.Tuple) and len(sl.elts) == 2 and isinstance(sl.elts[0], ast.Constant) and full(sl.elts[1]):
+                views[nm] = ("row", sl.elts[0])
+            else:
+                return None
+            accounted.add(id(n.value.value))
+            # every other use of the view must be a store through it
+            for x in ast.walk(col):
+                if isinstance(x, ast.Name) and x.id == nm and isinstance(x.ctx, ast.Load):
+                    px = parent(x)
+                    if not (isinstance(px, ast.Subscript) and px.value is x and isinstance(px.ctx, ast.Store)):
+                        return None
+
+    for n in ast.walk(col):
+        if not (isinstance(n, ast.Assign) and len(n.targets) == 1 and isinstance(n.targets[0], ast.Subscript)):
             continue
-        sl = n.targets[0].slice
+        tv = n.targets[0].value
+        if isinstance(tv, ast.Name) and tv.id in views:
+            kind, fixed = views[tv.id]
+            other = n.targets[0].slice
+            if isinstance(other, (ast.Slice, ast.Tuple)):
+                return None
+            sl = ast.Tuple(elts=[other, fixed] if kind == "col" else [fixed, other], ctx=ast.Load())
+        elif src(tv) == table:
+            accounted.add(id(tv))
+            sl = n.targets[0].slice
+        else:
+            continue
         if not (isinstance(sl, ast.Tuple) and len(sl.elts) == 2):
             return None
         k, slot = sl.elts
+        if full(k) and not isinstance(slot, ast.Slice):
+            # the whole column of the slot at once: table[:, slot] = (v0, v1, ...)
+            seq = n.value
+            if isinstance(seq, ast.Call) and src(seq.func) in ("np.array", "np.asarray", "tuple", "list") and len(seq.args) == 1:
+                seq = seq.args[0]
+            if isinstance(seq, ast.Name):
+                seq = _single_def(col, seq.id)
+            if not isinstance(seq, (ast.Tuple, ast.List)) or any(isinstance(x, ast.Starred) for x in seq.elts):
+                return None
+            for j, v in enumerate(seq.elts):
+                put(j, slot, v)
+            continue
         if isinstance(k, ast.Constant) and isinstance(k.value, int):
             put(k.value, slot, n.value)
             continue
@@ -987,7 +1309,118 @@ def _row_writes(col, table="self.diagnostics"):
                 put(x.elts[0].value, slot, x.elts[1])
             continue
         return None
+    # the table is used in some way that is not a recognised store (passed to a call, aliased, sliced): rows may be written there
+    for x in ast.walk(col):
+        if isinstance(x, ast.Attribute) and src(x) == table and id(x) not in accounted:
+            return None
     return rows
+
+
+def _table_rows(fn, it, depth=0):
+    """rows of a loop over a table written out in the source (directly or through a local assigned once): list/tuple display, dict
+    display and its items()/keys()/values(), enumerate / zip of such tables -> list of row nodes, or None"""
+    if depth > 4:
+        return None
+    if isinstance(it, ast.Name):
+        v = _single_def(fn, it.id)
+        return _table_rows(fn, v, depth + 1) if v is not None else None
+    if isinstance(it, ast.Attribute) and isinstance(parent(fn), ast.ClassDef) and \
+            src(it.value) in ("self", "cls", "type(self)", "self.__class__", parent(fn).name):
+        # a table kept by the class: assigned once, in the class body or through self in one of its methods
+        cls_ = parent(fn)
+        defs = [st.value for st in cls_.body if isinstance(st, ast.Assign) and any(isinstance(t, ast.Name) and t.id == it.attr for t in st.targets)]
+        defs += [n.value for n in ast.walk(cls_) if isinstance(n, ast.Assign) and any(isinstance(t, ast.Attribute) and t.attr == it.attr and
+                                                                                      src(t.value) in ("self", "cls") for t in n.targets)]
+        others = [n for n in ast.walk(cls_) if isinstance(n, (ast.AugAssign, ast.AnnAssign)) and src(n.target).endswith("." + it.attr)]
+        mut = [n for n in ast.walk(cls_) if isinstance(n, ast.Call) and isinstance(n.func, ast.Attribute) and
+               n.func.attr in ("append", "extend", "insert", "pop", "remove", "update", "clear", "sort", "reverse") and
+               isinstance(n.func.value, ast.Attribute) and n.func.value.attr == it.attr]
+        if len(defs) == 1 and not others and not mut:
+            return _table_rows(fn, defs[0], depth + 1)
+        return None
+    if isinstance(it, (ast.Tuple, ast.List)):
+        return None if any(isinstance(x, ast.Starred) for x in it.elts) else list(it.elts)
+    if isinstance(it, ast.Dict):
+        return None if any(k is None for k in it.keys) else list(it.keys)
+    if isinstance(it, ast.Call) and isinstance(it.func, ast.Attribute) and it.func.attr in ("items", "keys", "values") and not it.args:
+        d = it.func.value
+        if isinstance(d, ast.Name):
+            d = _single_def(fn, d.id)
+        if isinstance(d, ast.Dict) and not any(k is None for k in d.keys):
+            if it.func.attr == "items":
+                return [ast.Tuple(elts=[k, v], ctx=ast.Load()) for k, v in zip(d.keys, d.values)]
+            return list(d.keys if it.func.attr == "keys" else d.values)
+        return None
+    if isinstance(it, ast.Call) and isinstance(it.func, ast.Name):
+        if it.func.id == "enumerate" and it.args:
+            rows = _table_rows(fn, it.args[0], depth + 1)
+            st = it.args[1] if len(it.args) > 1 else next((k.value for k in it.keywords if k.arg == "start"), ast.Constant(value=0))
+            if rows is None or not (isinstance(st, ast.Constant) and isinstance(st.value, int)):
+                return None
+            return [ast.Tuple(elts=[ast.Constant(value=st.value + i), r], ctx=ast.Load()) for i, r in enumerate(rows)]
+        if it.func.id == "zip" and it.args and not it.keywords:
+            cols = [_table_rows(fn, a, depth + 1) for a in it.args]
+            if any(c is None for c in cols) or len({len(c) for c in cols}) != 1:
+                return None
+            return [ast.Tuple(elts=list(r), ctx=ast.Load()) for r in zip(*cols)]
+        if it.func.id in ("list", "tuple") and len(it.args) == 1:
+            return _table_rows(fn, it.args[0], depth + 1)
+        if it.func.id == "range" and 1 <= len(it.args) <= 2 and all(isinstance(a, ast.Constant) and isinstance(a.value, int) for a in it.args):
+            lo, hi = (0, it.args[0].value) if len(it.args) == 1 else (it.args[0].value, it.args[1].value)
+            return [ast.Constant(value=i) for i in range(lo, min(hi, lo + 64))]
+    return None
+
+
+def _loop_instances(fn, node):
+    """the copies of `node` (an expression inside loops over tables written out in the source), one per pass, with the loop
+    variables replaced by the entries of the row; [node] when it is in no loop; None when an enclosing loop is not such a table"""
+    loops = []
+    p_ = parent(node)
+    while p_ is not None and p_ is not fn:
+        if isinstance(p_, (ast.For, ast.While)):
+            loops.append(p_)
+        p_ = parent(p_)
+    envs = [{}]
+    for lp in reversed(loops):
+        if not isinstance(lp, ast.For):
+            return None
+        new_envs = []
+        for env in envs:
+            rows = _table_rows(fn, _subst(lp.iter, env))
+            if rows is None:
+                return None
+            for r in rows:
+                e2 = dict(env)
+
+                def go(t, n):
+                    if isinstance(t, ast.Name):
+                        e2[t.id] = n
+                        return True
+                    if isinstance(t, (ast.Tuple, ast.List)) and isinstance(n, (ast.Tuple, ast.List)) and len(t.elts) == len(n.elts):
+                        return all(go(a, b) for a, b in zip(t.elts, n.elts))
+                    return False
+                if not go(lp.target, r):
+                    return None
+                new_envs.append(e2)
+        envs = new_envs
+        if len(envs) > 64:
+            return None
+    return [(_subst(node, env) if env else node) for env in envs]
+
+
+def _range_text(n):
+    """canonical text of a slot range: ':' for everything, 'a:b' with an omitted lower bound written 0"""
+    if n is None:
+        return ":"
+    if isinstance(n, ast.Constant) and n.value is Ellipsis:
+        return ":"
+    if isinstance(n, ast.Slice):
+        if n.step is not None and src(n.step) != "1":
+            return src(n)
+        lo = src(n.lower) if n.lower is not None else "0"
+        hi = src(n.upper) if n.upper is not None else ""
+        return ":" if (lo == "0" and hi == "") else f"{lo}:{hi}"
+    return src(n)
 
 
 def _ctor_table(init):
@@ -1003,6 +1436,15 @@ def _ctor_table(init):
             ly = kw.get("layout", b.args[1] if len(b.args) > 1 else None)
             if len(args) != 2 or eg is None or ly is None:
                 continue
+            # temporaries: eta = G.eta_grid ; lay = G.getLayout('name') ; name = 'v_parallel'
+            for _ in range(3):
+                if isinstance(eg, ast.Name) and _single_def(init, eg.id) is not None:
+                    eg = _single_def(init, eg.id)
+                if isinstance(ly, ast.Name) and _single_def(init, ly.id) is not None:
+                    ly = _single_def(init, ly.id)
+            if isinstance(ly, ast.Call) and isinstance(ly.func, ast.Attribute) and ly.func.attr == "getLayout" and len(ly.args) == 1 \
+                    and isinstance(ly.args[0], ast.Name) and isinstance(_single_def(init, ly.args[0].id), ast.Constant):
+                ly = ast.Call(func=ly.func, args=[_single_def(init, ly.args[0].id)], keywords=[])
             g = src(eg.value) if isinstance(eg, ast.Attribute) and eg.attr == "eta_grid" else None
             lname, lg = None, None
             if isinstance(ly, ast.Call) and isinstance(ly.func, ast.Attribute) and ly.func.attr == "getLayout" and len(ly.args) == 1 \
@@ -1027,20 +1469,27 @@ def collector(chk):
     irole = {}
     if len(iargs) == 6:
         irole = {iargs[4]: "distribFunc", iargs[5]: "phi"}
-    # ---- rows written by collect
+    # ---- rows written by collect.  The table is private to the collector: what matters is that every documented quantity is
+    # written to ONE row, that this row is reduced with the operation of the quantity into its own result array, and that getLine
+    # prints the result arrays in the documented order.  Which row a quantity lives in is a convention between collect, reduce and
+    # getLine: the three are compared with one another, not with the row numbers the repository uses today.
+    WANT = [("t",)] + [("grid", "f", {5: "getMin", 6: "getMax"}[k]) if k in (5, 6) else
+                       ("norm", ROW_SPEC[k][0], ROW_SPEC[k][1], ROW_SPEC[k][2], ROW_SPEC[k][3], ROW_SPEC[k][2], ROW_SPEC[k][4])
+                       for k in range(1, 8)]
     rows = _row_writes(col)
+    row_of = {}                 # documented quantity j -> row of the table that holds it
+    if rows is not None and not rows:
+        # no store into the table was recognised at all (it may be written through other attributes that are views of it)
+        rows = None
     if rows is None or not role:
         chk.ob("E6-diagnostic-rows", col, "collect: rows 0..7", None, "rows are written through a computed row index (or the signature of "
                "collect changed): not recognised", file=F, func=Q + "collect")
     else:
-        verdicts = []
-        for k in range(8):
-            if k not in rows:
-                verdicts.append((False, f"row {k} ({ROW_NAME[k]}) is never written: the column keeps the zeros of the allocation"))
-                continue
+        bad, und, held = [], [], {}
+        for k in sorted(rows):
             slot, v, twice = rows[k]
             if twice:
-                verdicts.append((None, f"row {k} is written more than once"))
+                und.append(f"row {k} is written more than once")
                 continue
             scale = None
             if isinstance(v, ast.BinOp) and isinstance(v.op, (ast.Mult, ast.Div)):
@@ -1050,9 +1499,8 @@ def collector(chk):
                         scale, v = c_.value, o_
                         break
             got = None
-            if k == 0:
-                got = ("t",) if isinstance(v, ast.Name) and role.get(v.id) == "t" else ("name", src(v)) if isinstance(v, ast.Name) else None
-                want = ("t",)
+            if isinstance(v, ast.Name):
+                got = ("t",) if role.get(v.id) == "t" else ("name", src(v))
             elif isinstance(v, ast.Call) and isinstance(v.func, ast.Attribute) and len(v.args) + len(v.keywords) <= 1:
                 recv, meth = v.func.value, v.func.attr
                 arg = (v.args + [kw.value for kw in v.keywords] + [None])[0]
@@ -1062,50 +1510,142 @@ def collector(chk):
                 elif isinstance(recv, ast.Attribute) and src(recv.value) == "self" and recv.attr in ctors and argr:
                     c_ = ctors[recv.attr]
                     got = ("norm", c_[0], meth, irole.get(c_[1]), c_[2], irole.get(c_[3]), argr)
-                want = ("grid", "f", {5: "getMin", 6: "getMax"}[k]) if k in (5, 6) else \
-                    ("norm", ROW_SPEC[k][0], ROW_SPEC[k][1], ROW_SPEC[k][2], ROW_SPEC[k][3], ROW_SPEC[k][2], ROW_SPEC[k][4])
-            else:
-                want = None
-            if got is None:
-                verdicts.append((None, f"row {k}: value `{src(rows[k][1])[:60]}` not recognised"))
-            elif got != want:
-                verdicts.append((False, f"row {k} must hold the {ROW_NAME[k]} {want} but is given `{src(rows[k][1])[:70]}` = {got}: "
-                                        "the documented column holds another quantity (or one computed with weights built for another "
-                                        "grid/layout)"))
-            elif scale is not None and scale != 1:
-                verdicts.append((False, f"row {k} ({ROW_NAME[k]}) is stored scaled by {scale}: `{src(rows[k][1])[:70]}` - the local "
-                                        "diagnostic that is summed is no longer the quadrature of the field (a factor belongs into the "
-                                        "norm object, where every user gets it)"))
-            else:
-                verdicts.append((True, ""))
+            if got is None or any(x is None for x in got):
+                und.append(f"row {k}: value `{src(rows[k][1])[:60]}` not recognised" +
+                           (f" (resolved to {got}: the class, grid or layout of the norm object was not followed)" if got else ""))
+                continue
+            held[k] = got
+            if got in WANT and scale is not None and scale != 1:
+                bad.append(f"row {k} ({ROW_NAME[WANT.index(got)]}) is stored scaled by {scale}: `{src(rows[k][1])[:70]}` - the local "
+                           "diagnostic that is summed is no longer the quadrature of the field (a factor belongs into the "
+                           "norm object, where every user gets it)")
+        for j_, w_ in enumerate(WANT):
+            ks = [k for k, g_ in held.items() if g_ == w_]
+            if len(ks) == 1:
+                row_of[j_] = ks[0]
+            elif len(ks) > 1:
+                und.append(f"the {ROW_NAME[j_]} is written to the rows {ks}")
+            elif not und:
+                # a row that holds a near miss: same kind of quantity, other class / grid / layout / argument
+                near = [(k, g_) for k, g_ in held.items() if g_ not in WANT and g_[0] == w_[0] and
+                        (len(g_) < 3 or g_[1] == w_[1] or g_[2] == w_[2])]
+                free = [(k, g_) for k, g_ in held.items() if g_ not in WANT]
+                if near or free:
+                    k, g_ = (near or free)[0]
+                    bad.append(f"the {ROW_NAME[j_]} {w_} is not written to the table; row {k} is given `{src(rows[k][1])[:70]}` = {g_}: "
+                               "the documented column holds another quantity (or one computed with weights built for another "
+                               "grid/layout)")
+                else:
+                    bad.append(f"the {ROW_NAME[j_]} is never written: its column keeps the zeros of the allocation")
+        stray = sorted(k for k, g_ in held.items() if g_ not in WANT)
         slots = {rows[k][0] for k in rows}
-        extra = sorted(k for k in rows if k not in range(8))
-        bad = [m for o, m in verdicts if o is False]
-        und = [m for o, m in verdicts if o is None]
         if len(slots) > 1:
             und.append(f"rows are written to different slot expressions {sorted(slots)}")
-        if extra:
-            und.append(f"undocumented rows {extra} are written")
+        if stray and not bad:
+            und.append(f"rows {stray} hold quantities that are not documented")
         ok = False if bad else None if und else True
         chk.ob("E6-diagnostic-rows", col, "collect: rows 0..7", ok, "the eight documented quantities (norm objects of the documented class, "
-               "built for the layout collect is called in) are written to rows 0..7 of one slot" if ok else "; ".join(bad or und),
+               "built for the layout collect is called in) are each written to one row of one slot" if ok else "; ".join(bad or und),
                file=F, func=Q + "collect")
-    # ---- allocation
+    # ---- the slot: step number modulo the number of slots that are allocated
+    oks_, whys_ = None, "the slot index of collect was not recognised"
+    alloc_ = [n for n in ast.walk(init) if isinstance(n, ast.Assign) and src(n.targets[0]) == "self.diagnostics"]
+    if rows and len(getattr(rows, "slot_nodes", {})) == 1 and role and len(alloc_) == 1:
+        from ..resolve import inline_locals, expand
+        (slot_src, slot_node), = rows.slot_nodes.items()
+        e_ = expand(slot_node, inline_locals(col))
+        tname = [k for k, v in role.items() if v == "t"][0]
+        # attributes set once from constructor parameters stand for these parameters
+        attr_of = {}
+        for n in ast.walk(init):
+            if isinstance(n, ast.Assign) and len(n.targets) == 1 and isinstance(n.targets[0], ast.Attribute) and \
+                    src(n.targets[0].value) == "self" and isinstance(n.value, ast.Name) and n.value.id in iargs:
+                attr_of["self." + n.targets[0].attr] = n.value.id
+        T_, DT_ = sp.Symbol("t", positive=True), sp.Symbol("dt", positive=True)
+        S_ = sp.Symbol("saveStep", integer=True, positive=True)
+        MOD = sp.Function("mod")
+        hooks = {tname: T_}
+        for a_, p_ in attr_of.items():
+            if p_ == "dt":
+                hooks[a_] = DT_
+            elif p_ == "saveStep":
+                hooks[a_] = S_
+        n_ = NpSym(env={"int": lambda z: z, "floor": sp.floor}, hooks=hooks)
+        from ..core import names_in
+        if tname not in names_in(e_):
+            # recognised wrong form: the slot does not depend on the time handed to collect
+            state = sorted({src(a_) for a_ in ast.walk(e_) if isinstance(a_, ast.Attribute) and src(a_.value) == "self" and
+                            any(isinstance(w_, (ast.AugAssign, ast.Assign)) and any(src(t_) == src(a_) for t_ in
+                                                                                  ([w_.target] if isinstance(w_, ast.AugAssign) else w_.targets))
+                                for w_ in ast.walk(col))})
+            oks_ = False
+            whys_ = (f"the slot index `{src(e_)[:60]}` does not depend on the time `{tname}` handed to collect" +
+                     (f" (it is read from {state}, state the collector carries from call to call)" if state else "") +
+                     ": it is the slot of the step only as long as collect is called exactly once per step from a step that is a multiple "
+                     "of saveStep; after a restart at another time every line is stored in the slot of another step, and the slots the "
+                     "driver prints for the first block hold zeros")
+            got = None
+        else:
+            try:
+                got = n_.ev(e_)
+            except Undecided as ex:
+                got, whys_ = None, f"slot index `{src(e_)[:60]}` outside the extractable fragment: {ex}"
+        cols_ = None
+        av = alloc_[0].value
+        if isinstance(av, ast.Call) and av.args and isinstance(av.args[0], (ast.List, ast.Tuple)) and len(av.args[0].elts) == 2:
+            try:
+                cols_ = NpSym(hooks={"saveStep": S_, **{a_: S_ for a_, p_ in attr_of.items() if p_ == "saveStep"}}).ev(av.args[0].elts[1])
+            except Undecided:
+                cols_ = None
+        if got is not None and cols_ is not None:
+            step = sp.floor(T_ / DT_)
+            if isinstance(got, sp.Basic) and got.func == MOD and len(got.args) == 2:
+                num, mod_ = got.args
+                d_ = sp.simplify(mod_ - cols_)
+                if sp.simplify(num - step) == 0 and d_ == 0:
+                    oks_, whys_ = True, "slot = (t // dt) mod (number of slots allocated): consecutive steps fill consecutive slots and wrap with the table"
+                elif d_.is_number and d_ != 0:
+                    oks_, whys_ = False, (f"the slot index `{src(e_)[:60]}` wraps modulo {mod_} but the table has {cols_} slots: " +
+                                          ("slots past the end of the table are addressed" if d_ > 0 else
+                                           "the last slot(s) are never filled and the step numbers wrap early, so the lines printed for "
+                                           "the later steps of a block are those of other steps"))
+                elif d_ == 0:
+                    dn = sp.simplify(num - step)
+                    whys_ = f"slot = ({num}) mod {mod_}: the step number is not written as t // dt (difference {dn}): not decided"
+                else:
+                    whys_ = f"slot index `{src(e_)[:60]}`: modulus {mod_} not comparable with the {cols_} slots allocated"
+            elif isinstance(got, sp.Basic) and not got.has(MOD) and sp.simplify(got - step) == 0:
+                oks_, whys_ = False, (f"the slot index `{src(e_)[:60]}` is the step number itself, not reduced modulo the {cols_} slots of the "
+                                      "table: after that many steps the store runs past the table")
+            else:
+                whys_ = f"slot index `{src(e_)[:60]}` = {got} not recognised"
+    chk.ob("E6-time-slot", col, "collect: slot of the step", oks_, whys_, file=F, func=Q + "collect")
+    # ---- allocation: a row for everything that is written
     alloc = [n for n in ast.walk(init) if isinstance(n, ast.Assign) and src(n.targets[0]) == "self.diagnostics"]
     oka, whya = None, "allocation of self.diagnostics not recognised"
     if len(alloc) == 1 and isinstance(alloc[0].value, ast.Call) and src(alloc[0].value.func) in ("np.zeros", "np.empty", "np.ndarray") \
             and alloc[0].value.args and isinstance(alloc[0].value.args[0], (ast.List, ast.Tuple)) and len(alloc[0].value.args[0].elts) == 2:
         r_, s_ = alloc[0].value.args[0].elts
-        if isinstance(r_, ast.Constant) and src(s_) in ("saveStep", "self.saveStep"):
-            oka = r_.value >= 8
-            whya = "8 rows x saveStep slots" if oka else f"only {r_.value} rows are allocated for the 8 documented quantities"
+        if isinstance(r_, ast.Constant) and isinstance(r_.value, int) and src(s_) in ("saveStep", "self.saveStep"):
+            need = max(list(rows) + [7]) + 1 if rows else 8
+            oka = r_.value >= need
+            whya = f"{r_.value} rows x saveStep slots" if oka else f"only {r_.value} rows are allocated for the {need} rows that are written"
     chk.ob("E6-diagnostic-rows", alloc[0] if alloc else init, "diagnostics table: rows x slots", oka, whya, file=F, func=Q + "__init__")
     # ---- reductions
-    reds, und = {}, []
+    reds, und, ranges = {}, [], {}
     calls = [c for c in ast.walk(red) if isinstance(c, ast.Call) and isinstance(c.func, ast.Attribute) and c.func.attr in ("Reduce", "Allreduce")]
     calls.sort(key=lambda c: (c.lineno, c.col_offset))
     badr = []
+    inst = []
     for c in calls:
+        cs = _loop_instances(red, c)
+        if cs is None:
+            und.append(f"`{src(c)[:60]}` is issued in a loop that is not a table written out in the source: rows not enumerated")
+            continue
+        for c_ in cs:
+            c_.lineno = c.lineno
+            inst.append(c_)
+    for c in inst:
         b = {}
         for nm, a_ in zip(("sendbuf", "recvbuf"), c.args):
             b[nm] = a_
@@ -1116,13 +1656,27 @@ def collector(chk):
         if len(c.args) > 3:
             b.setdefault("root", c.args[3])
         s_ = b.get("sendbuf")
-        row = None
+        row, srange = None, ":"
         if isinstance(s_, ast.Subscript) and src(s_.value) == "self.diagnostics":
             e0 = s_.slice.elts[0] if isinstance(s_.slice, ast.Tuple) else s_.slice
             rest = s_.slice.elts[1:] if isinstance(s_.slice, ast.Tuple) else []
-            if isinstance(e0, ast.Constant) and isinstance(e0.value, int) and all(src(x) == ":" for x in rest):
+            if isinstance(e0, ast.Constant) and isinstance(e0.value, int) and not isinstance(e0.value, bool) and len(rest) <= 1:
                 row = e0.value
+                srange = _range_text(rest[0] if rest else None)
         rb = b.get("recvbuf")
+        rrange = ":"
+        if isinstance(rb, ast.Subscript) and isinstance(rb.value, ast.Attribute) and src(rb.value.value) == "self" and \
+                not isinstance(rb.slice, ast.Tuple):
+            # the slots of the result array that receive the reduced values
+            rrange = _range_text(rb.slice)
+            rb = rb.value
+        if row is not None and srange != rrange:
+            badr.append(f"`{src(c)[:70]}` reduces the slots `{srange}` of row {row} into the slots `{rrange}` of the result array: the "
+                        "reduced values land in the slots of other steps")
+        ranges.setdefault(row, srange)
+        if isinstance(rb, ast.Call) and src(rb.func) == "getattr" and len(rb.args) == 2 and src(rb.args[0]) == "self" and \
+                isinstance(rb.args[1], ast.Constant) and isinstance(rb.args[1].value, str) and rb.args[1].value.isidentifier():
+            rb = ast.Attribute(value=ast.Name(id="self", ctx=ast.Load()), attr=rb.args[1].value, ctx=ast.Load())
         if row is None or rb is None or not (isinstance(rb, ast.Attribute) and src(rb.value) == "self"):
             und.append(f"`{src(c)[:70]}`: row / result array not recognised")
             continue
@@ -1133,27 +1687,38 @@ def collector(chk):
         reds[row] = (rb.attr, op, root, c)
     if not calls:
         und.append("no Reduce call found")
+    if len(row_of) < 8:
+        und.append("the rows holding the documented quantities were not all identified in collect")
     if not und:
-        for k in range(1, 8):
+        for j_ in range(1, 8):
+            k = row_of[j_]
             if k not in reds:
-                badr.append(f"row {k} ({ROW_NAME[k]}) is never reduced: its result array keeps zeros / the local value of one process")
-            elif reds[k][1] != ROW_OP[k]:
-                badr.append(f"row {k} ({ROW_NAME[k]}) is reduced with {reds[k][1]} instead of {ROW_OP[k]}: the reported value is not "
+                badr.append(f"row {k} ({ROW_NAME[j_]}) is never reduced: its result array keeps zeros / the local value of one process")
+            elif reds[k][1] not in ("MPI.SUM", "MPI.MIN", "MPI.MAX", "MPI.PROD", "MPI.LAND", "MPI.LOR", "MPI.BAND", "MPI.BOR",
+                                    "MPI.MAXLOC", "MPI.MINLOC"):
+                und.append(f"row {k}: reduction operation `{reds[k][1]}` not recognised")
+            elif reds[k][1] != ROW_OP[j_]:
+                badr.append(f"row {k} ({ROW_NAME[j_]}) is reduced with {reds[k][1]} instead of {ROW_OP[j_]}: the reported value is not "
                             "that of the global field")
         attrs = [v[0] for v in reds.values()]
         dup = sorted({a_ for a_ in attrs if attrs.count(a_) > 1})
         if dup:
             badr.append(f"several rows are reduced into the same result array {dup}: the later reduction overwrites the earlier one")
-        if 0 in reds:
+        if row_of[0] in reds:
             und.append("the time row is reduced as well")
-        if len({v[2] for v in reds.values()}) > 1:
+        roots = {v[2] for v in reds.values()}
+        if len(roots) > 1 and not all(r_.lstrip("-").isdigit() for r_ in roots):
+            und.append(f"the roots {sorted(roots)} of the reductions are written differently: not compared")
+        elif len(roots) > 1:
             badr.append(f"the rows are reduced to different roots {sorted({v[2] for v in reds.values()})}: no process holds the whole line")
     okr = False if badr else None if und else True
+    if badr and und:
+        badr = badr + ["(not recognised: " + "; ".join(und)[:200] + ")"]
     chk.ob("E6-diagnostic-rows", red, "reduce: op per row", okr, "sums for the four integrals and the energy, MIN/MAX for the extrema, "
            "each row into its own result array on one root" if okr else "; ".join(badr or und), file=F, func=Q + "reduce")
     # ---- square roots: on the result arrays of the two L2 rows only, after the sums
     last_reduce = max((c.lineno for c in calls), default=0)
-    sq, bads, unds = set(), [], []
+    sq, bads, unds, sq_ranges = set(), [], [], {}
     for fn_ in (col, red):
         for n in ast.walk(fn_):
             is_sqrt = isinstance(n, ast.Call) and src(n.func) in ("np.sqrt", "sqrt", "math.sqrt") or \
@@ -1165,8 +1730,16 @@ def collector(chk):
             while st is not None and not isinstance(st, ast.stmt):
                 st = parent(st)
             tgt = st.targets[0] if isinstance(st, ast.Assign) and len(st.targets) == 1 else None
-            if tgt is not None and isinstance(tgt, ast.Subscript) and src(tgt.slice) == ":":
+            sq_range = ":"
+            if tgt is not None and isinstance(tgt, ast.Subscript) and not isinstance(tgt.slice, ast.Tuple) and \
+                    isinstance(arg, ast.Subscript) and src(arg.slice) == src(tgt.slice) and src(arg.value) == src(tgt.value):
+                # self.X[S] = sqrt(self.X[S]): the root of the slots S only
+                sq_range = _range_text(tgt.slice)
+                tgt, arg = tgt.value, arg.value
+            elif tgt is not None and isinstance(tgt, ast.Subscript) and src(tgt.slice) in (":", "..."):
                 tgt = tgt.value
+            if isinstance(arg, ast.Attribute) and src(arg.value) == "self":
+                sq_ranges[arg.attr] = sq_range
             if fn_ is col or "self.diagnostics" in src(arg):
                 bads.append(f"`{src(st)[:70]}` takes a square root of the local contribution before the global sum: the sum over processes of "
                             "square roots is not the root of the summed squares")
@@ -1175,11 +1748,18 @@ def collector(chk):
                     bads.append(f"`{src(st)[:70]}` comes before the reduction that fills `{src(arg)}`")
                 else:
                     sq.add(arg.attr)
+            elif isinstance(st, ast.Expr) and isinstance(n, ast.Call) and n is st.value and isinstance(arg, ast.Attribute) and \
+                    src(arg.value) == "self" and any(k_.arg == "out" and src(k_.value) == src(arg) for k_ in n.keywords):
+                # np.sqrt(self.X, out=self.X): in place
+                if st.lineno <= last_reduce:
+                    bads.append(f"`{src(st)[:70]}` comes before the reduction that fills `{src(arg)}`")
+                else:
+                    sq.add(arg.attr)
             else:
                 unds.append(f"`{src(st)[:70]}` not recognised")
     oks, whys = None, ""
-    if 1 in reds and 2 in reds and not und:
-        want = {reds[1][0], reds[2][0]}
+    if 1 in row_of and 2 in row_of and row_of[1] in reds and row_of[2] in reds and not und:
+        want = {reds[row_of[1]][0], reds[row_of[2]][0]}
         if bads:
             oks, whys = False, "; ".join(bads)
         elif sq - want:
@@ -1188,22 +1768,40 @@ def collector(chk):
         elif unds or sq != want:
             oks, whys = None, "; ".join(unds) or f"square roots found for {sorted(sq)} only (expected the two L2 result arrays {sorted(want)})"
         else:
-            oks, whys = True, "the square root is applied to the two L2 rows only, after the global sum of the squared norms"
+            # the slots whose root is taken are the slots the reduction has just filled
+            mism = [(a_, sq_ranges.get(a_, ":"), ranges.get(row_of[j_], ":")) for j_, a_ in ((1, reds[row_of[1]][0]), (2, reds[row_of[2]][0]))
+                    if sq_ranges.get(a_, ":") != ranges.get(row_of[j_], ":")]
+            if mism:
+                a_, sr_, rr_ = mism[0]
+                oks, whys = False, (f"the reduction fills the slots `{rr_}` of self.{a_} with the summed squares, but the square root is taken "
+                                    f"of the slots `{sr_}`: " + ("slots filled (and already square-rooted) by an earlier reduce are square-rooted "
+                                                                 "again, so the norm printed for those steps is the fourth root"
+                                                                 if sr_ == ":" else "other slots than the ones just reduced"))
+            else:
+                oks, whys = True, "the square root is applied to the two L2 rows only, after the global sum of the squared norms"
+    elif bads:
+        oks, whys = False, "; ".join(bads)
     else:
         whys = "the result arrays of the two L2 rows were not identified"
     chk.ob("E6-diagnostic-rows", red, "sqrt after reduction", oks, whys, file=F, func=Q + "reduce")
     # ---- printed columns
     cols = _format_columns(gl)
-    okg, whyg = None, "format call of getLine not recognised"
-    if cols is not None and not und and all(k in reds for k in range(1, 8)) and len(gl.args.args) == 2:
+    okg, whyg = None, "format call of getLine not recognised" if cols is None else "the rows / result arrays of the documented quantities " \
+        "were not all identified: the printed columns are not compared"
+    if cols is not None and not und and len(row_of) == 8 and all(row_of[j_] in reds for j_ in range(1, 8)) and len(gl.args.args) == 2:
         i_ = gl.args.args[1].arg
-        want = [f"self.diagnostics[0, {i_}]"] + [f"self.{reds[k][0]}[{i_}]" for k in range(1, 8)]
-        got = [src(c_) for c_ in cols]
+        want = [f"self.diagnostics[{row_of[0]}, {i_}]"] + [f"self.{reds[row_of[j_]][0]}[{i_}]" for j_ in range(1, 8)]
+        from ..resolve import inline_locals as _il, expand as _ex
+        env_g = _il(gl)
+        got = [src(_ex(c_, env_g)) for c_ in cols]
         if got == want:
             okg, whyg = True, "columns are printed in the documented order from the reduced arrays of slot i"
         elif sorted(got) == sorted(want):
-            okg, whyg = False, f"the documented columns are printed in another order: {got}"
-        elif any(g.startswith("self.diagnostics[") and not g.startswith("self.diagnostics[0,") for g in got):
+            holds = {w_: ROW_NAME[j_] for j_, w_ in enumerate(want)}
+            wrong = [f"column {j_} ({ROW_NAME[j_]}) prints `{g}`, which holds the {holds[g]}" for j_, (g, w_) in enumerate(zip(got, want)) if g != w_]
+            okg, whyg = False, ("the documented columns are printed in another order (rows as written by collect, result arrays as filled "
+                                "by reduce): " + "; ".join(wrong[:4]))
+        elif any(g.startswith("self.diagnostics[") and not g.startswith(f"self.diagnostics[{row_of[0]},") for g in got):
             okg, whyg = False, ("a column is printed from the local table self.diagnostics instead of the reduced array: the line shows the "
                                 f"contribution of one process: {[g for g in got if g.startswith('self.diagnostics[')]}")
         elif len(got) == len(want) and all(g == w or g.split("[")[0] in {w_.split("[")[0] for w_ in want} for g, w in zip(got, want)):
@@ -1447,6 +2045,10 @@ class _PathWalk:
         raise _NoPaths(f"statement `{src(st)[:50]}` not followed")
 
 
+_FLIP = {ast.Lt: ast.Gt, ast.Gt: ast.Lt, ast.LtE: ast.GtE, ast.GtE: ast.LtE, ast.Eq: ast.Eq, ast.NotEq: ast.NotEq}
+_NEGCMP = {ast.Lt: ast.GtE, ast.GtE: ast.Lt, ast.Gt: ast.LtE, ast.LtE: ast.Gt, ast.Eq: ast.NotEq, ast.NotEq: ast.Eq}
+
+
 def _latch_flag(fn):
     """the ownership flag of the loop over the fixed axes: a name assigned a constant before the loop, assigned inside it and
     read after it -> (name, initial constant, loop, in-loop assignments, polarity-ok) or None"""
@@ -1472,7 +2074,75 @@ def _latch_flag(fn):
             pre = [s_ for s_ in blk[:k] if isinstance(s_, ast.Assign) and len(s_.targets) == 1 and src(s_.targets[0]) == name]
             if name in after and pre and isinstance(pre[-1].value, ast.Constant) and isinstance(pre[-1].value.value, bool):
                 return name, pre[-1].value.value, loop, asg
+            # a counter of the fixed indices that are not local: 0 before the loop, only counted up inside, compared with 0 after
+            if name in after and pre and isinstance(pre[-1].value, ast.Constant) and type(pre[-1].value.value) is int and \
+                    pre[-1].value.value == 0:
+                return name, 0, loop, asg
     return None
+
+
+def _flag_fact(t, flag):
+    """what the test `t` says about the ownership flag: 'owns' / 'not-owns' when t is true, or None when t is not a test of the
+    flag.  Boolean flag (starts True, only cleared / starts False, only set): the name itself.  Counter (starts 0, only counted
+    up): comparisons with 0 / 1 and the bare name (truthy = something is missing)."""
+    if not flag:
+        return None
+    name, c0 = flag[0], flag[1]
+    if isinstance(c0, bool):
+        if isinstance(t, ast.Name) and t.id == name:
+            return "owns" if c0 else "not-owns"
+        if isinstance(t, ast.Compare) and len(t.ops) == 1 and isinstance(t.left, ast.Name) and t.left.id == name and \
+                isinstance(t.comparators[0], ast.Constant) and isinstance(t.comparators[0].value, bool) and \
+                isinstance(t.ops[0], (ast.Is, ast.Eq, ast.IsNot, ast.NotEq)):
+            same = isinstance(t.ops[0], (ast.Is, ast.Eq))
+            is_true = t.comparators[0].value == same           # the test says `name` is True
+            return "owns" if is_true == c0 else "not-owns"
+        return None
+    if isinstance(t, ast.Name) and t.id == name:
+        return "not-owns"
+    if isinstance(t, ast.Compare) and len(t.ops) == 1:
+        l, op, r = t.left, type(t.ops[0]), t.comparators[0]
+        if isinstance(r, ast.Name) and r.id == name and op in _FLIP:
+            l, op, r = r, _FLIP[op], l
+        if isinstance(l, ast.Name) and l.id == name and isinstance(r, ast.Constant) and type(r.value) is int:
+            zero = {(ast.Eq, 0): True, (ast.LtE, 0): True, (ast.Lt, 1): True, (ast.NotEq, 0): False, (ast.Gt, 0): False,
+                    (ast.GtE, 1): False}.get((op, r.value))
+            if zero is not None:
+                return "owns" if zero else "not-owns"
+    return None
+
+
+def _cmp_atoms_pol(t, pol, env):
+    """the comparisons that hold when test `t` has truth value `pol`, as (left src, op class, right src): a conjunction that holds,
+    a disjunction that fails (De Morgan, each comparison negated); None when the facts are not a conjunction of comparisons"""
+    from ..resolve import expand
+    t = expand(t, env)
+
+    def go(x, pol):
+        if isinstance(x, ast.UnaryOp) and isinstance(x.op, ast.Not):
+            return go(x.operand, not pol)
+        if isinstance(x, ast.BoolOp):
+            if isinstance(x.op, ast.And) != pol:
+                return None                      # a disjunction of facts
+            out = []
+            for v in x.values:
+                r = go(v, pol)
+                if r is None:
+                    return None
+                out.extend(r)
+            return out
+        if isinstance(x, ast.Compare):
+            parts, l = [], x.left
+            for op, r in zip(x.ops, x.comparators):
+                parts.append((src(l), type(op), src(r)))
+                l = r
+            if pol:
+                return parts
+            if len(parts) == 1 and parts[0][1] in _NEGCMP:
+                return [(parts[0][0], _NEGCMP[parts[0][1]], parts[0][2])]
+            return None
+        return None
+    return go(t, pol)
 
 
 def _cmp_atoms(t, env):
@@ -1491,7 +2161,17 @@ def _cmp_atoms(t, env):
     return out
 
 
-_FLIP = {ast.Lt: ast.Gt, ast.Gt: ast.Lt, ast.LtE: ast.GtE, ast.GtE: ast.LtE, ast.Eq: ast.Eq, ast.NotEq: ast.NotEq}
+def _fed_by(loop, name):
+    """the sequence that feeds loop target `name` in `for a, b in zip(X, Y)`: source of X / Y with the array wrappers
+    (np.atleast_1d, np.array, list, tuple) taken off, or None"""
+    it = loop.iter
+    if isinstance(it, ast.Call) and src(it.func) == "zip" and isinstance(loop.target, ast.Tuple) and len(it.args) == len(loop.target.elts):
+        for t, a in zip(loop.target.elts, it.args):
+            if isinstance(t, ast.Name) and t.id == name:
+                while isinstance(a, ast.Call) and src(a.func) in ("np.atleast_1d", "np.array", "np.asarray", "list", "tuple") and a.args:
+                    a = a.args[0]
+                return src(a)
+    return None
 
 
 def _slice_index_rule(chk, m, body_fn, q):
@@ -1512,17 +2192,25 @@ def _slice_index_rule(chk, m, body_fn, q):
         return None, f"{len(stores)} stores into an index list in the loop", None
     st = stores[0]
     idxname = st.targets[0].value.id
+    # names assigned once in the loop's own block (their value at the store is that assignment, whatever other loops do with the name)
+    for b_ in loop.body:
+        if isinstance(b_, ast.Assign) and len(b_.targets) == 1 and isinstance(b_.targets[0], ast.Name) and \
+                isinstance(b_.value, (ast.Subscript, ast.Attribute, ast.BinOp, ast.Name)):
+            nm_ = b_.targets[0].id
+            if sum(1 for x in ast.walk(loop) if isinstance(x, ast.Name) and x.id == nm_ and isinstance(x.ctx, ast.Store)) == 1 and \
+                    nm_ not in [x.id for x in loop.target.elts]:
+                env[nm_] = b_.value
     De = expand(st.targets[0].slice, env)
     D = src(De)
     ax = None
     if isinstance(De, ast.Subscript) and src(De.value) == "self._layout.inv_dims_order" and isinstance(De.slice, ast.Name) and \
             De.slice.id in targets:
         ax = De.slice.id
-    elif isinstance(De, ast.Name) and De.id in targets:
-        return False, (f"`{src(st)[:60]}`: the list is indexed by `{D}`, which is a dimension number: the axis that carries it in this "
-                       f"layout is self._layout.inv_dims_order[{D}]"), idxname
+    elif isinstance(De, ast.Name) and De.id in targets and _fed_by(loop, De.id) == "axis":
+        return False, (f"`{src(st)[:60]}`: the list is indexed by `{D}`, which is a dimension number (the loop takes it from the parameter "
+                       f"`axis`): the axis that carries it in this layout is self._layout.inv_dims_order[{D}]"), idxname
     elif isinstance(De, ast.Subscript) and src(De.value) == "self._layout.dims_order" and isinstance(De.slice, ast.Name) and \
-            De.slice.id in targets:
+            De.slice.id in targets and _fed_by(loop, De.slice.id) == "axis":
         return False, (f"`{src(st)[:60]}`: the list is indexed by `{D}`: dims_order maps an axis to its dimension, the axis carrying "
                        f"dimension {De.slice.id} is self._layout.inv_dims_order[{De.slice.id}]"), idxname
     else:
@@ -1541,6 +2229,9 @@ def _slice_index_rule(chk, m, body_fn, q):
             return None, f"the sequences `{src(it)[:60]}` the loop runs over are not the parameters axis and fixValue", idxname
     else:
         return None, f"loop over `{src(it)[:60]}` not recognised", idxname
+    rebound = {n.id for b_ in loop.body for n in ast.walk(b_) if isinstance(n, ast.Name) and isinstance(n.ctx, ast.Store)} & set(targets)
+    if rebound:
+        return None, f"the loop variable(s) {sorted(rebound)} are re-assigned inside the loop: their meaning at the store is not followed", idxname
     v = st.value
     if isinstance(v, ast.Tuple) and len(v.elts) == 1:
         v = v.elts[0]
@@ -1556,11 +2247,28 @@ def _slice_index_rule(chk, m, body_fn, q):
         return None, f"stored local index `{V}` not recognised", idxname
     # ownership test guarding the store
     gs = [(t, pol) for t, pol, k in guards_of(st, stop=loop) if k == "if"]
-    if len(gs) != 1 or not gs[0][1]:
-        return None, "the test guarding the store is not a single `if`", idxname
-    atoms = _cmp_atoms(gs[0][0], env)
-    if atoms is None:
-        return None, f"ownership test `{src(gs[0][0])[:60]}` not recognised", idxname
+    if not gs:
+        return None, "the store of the local index is not guarded by an ownership test", idxname
+    atoms = []
+    # a test kept in a local assigned once inside the loop, in the loop's own block before the guarded statement
+    in_loop = {}
+    for n in ast.walk(loop):
+        if isinstance(n, ast.Assign) and len(n.targets) == 1 and isinstance(n.targets[0], ast.Name):
+            in_loop.setdefault(n.targets[0].id, []).append(n)
+    env_g = dict(env)
+    for nm, ds in in_loop.items():
+        if len(ds) == 1 and ds[0] in loop.body and isinstance(ds[0].value, (ast.Compare, ast.BoolOp, ast.UnaryOp)) and \
+                not any(isinstance(x, ast.AugAssign) and isinstance(x.target, ast.Name) and x.target.id == nm for x in ast.walk(loop)):
+            top = st
+            while parent(top) is not loop and parent(top) is not None:
+                top = parent(top)
+            if top in loop.body and loop.body.index(ds[0]) < loop.body.index(top):
+                env_g[nm] = ds[0].value
+    for t_, pol_ in gs:
+        a_ = _cmp_atoms_pol(t_, pol_, env_g)
+        if a_ is None:
+            return None, f"ownership test `{'' if pol_ else 'not '}{src(t_)[:60]}` not recognised", idxname
+        atoms.extend(a_)
     norm = set()
     for l, op, r in atoms:
         if r == fix and op in _FLIP:
@@ -1571,9 +2279,187 @@ def _slice_index_rule(chk, m, body_fn, q):
         return True, ("the fixed global index of dimension ax is looked up on the axis carrying ax, tested against [start, end) of that "
                       "axis and converted to a local index with that axis' start"), idxname
     if {(l, r) for l, _, r in norm} == {(l, r) for l, _, r in want} and all(op in (ast.Lt, ast.LtE, ast.Gt, ast.GtE) for _, op, _ in norm):
-        return False, (f"ownership test `{src(gs[0][0])[:70]}` is not `start <= {fix} < end`: an index on a block boundary is assigned to "
+        shown = " and ".join(("" if pol_ else "not ") + f"({src(t_)[:60]})" for t_, pol_ in gs)
+        return False, (f"ownership test `{shown}` is not `start <= {fix} < end`: an index on a block boundary is assigned to "
                        "no process or to two (out-of-range local index / value taken from the neighbouring block)"), idxname
     return None, f"ownership test `{src(gs[0][0])[:60]}` not recognised", idxname
+
+
+# ---- sorts of the small integers in getMin / getMax: a DIMENSION number (0 = r ... as the caller names them in `axis`) is not
+# an AXIS position of the local block (what starts / ends / shape / the index list are indexed with); dims_order maps axis ->
+# dimension, inv_dims_order maps dimension -> axis.  A static sort inference over the statements of the method.
+_AX, _DM, _GI = "axis position", "dimension number", "global index"
+_AXIS_TABLES = {"self._layout.starts": _GI, "self._layout.ends": _GI, "self._layout.shape": None, "self._layout.max_block_shape": None,
+                "self._f.shape": None}
+
+
+class _Sorts:
+    def __init__(self, fn):
+        self.fn = fn
+        self.env = {}           # name -> sort | ('seq', elem sort) | ('dict', key sort, value sort) | ('tuple', [sorts])
+        self.bad, self.checked = [], 0
+        self.origin = {}
+        for a in fn.args.args:
+            if a.arg == "axis":
+                self.env[a.arg] = ("seq", _DM)
+            elif a.arg == "fixValue":
+                self.env[a.arg] = ("seq", _GI)
+
+    def need(self, node, idx, want, table, maps):
+        got = self.sort(idx)
+        if got in (_AX, _DM):
+            self.checked += 1
+            if got != want:
+                self.bad.append((node, f"`{src(node)[:60]}`: `{src(idx)[:30]}` is {'an' if got == _AX else 'a'} {got}"
+                                 f"{self.origin.get(src(idx), '')}, but {table} {maps}"))
+
+    def sort(self, e):
+        if isinstance(e, ast.Name):
+            return self.env.get(e.id)
+        if isinstance(e, ast.Call):
+            f = src(e.func)
+            if f in ("np.atleast_1d", "np.array", "np.asarray", "list", "tuple", "np.asanyarray") and e.args:
+                s_ = self.sort(e.args[0])
+                return s_ if isinstance(s_, tuple) and s_[0] == "seq" else ("seq", s_) if s_ in (_AX, _DM, _GI) else None
+            if f == "zip":
+                els = []
+                for a in e.args:
+                    s_ = self.sort(a)
+                    els.append(s_[1] if isinstance(s_, tuple) and s_[0] == "seq" else None)
+                return ("seq", ("tuple", els))
+            if f == "enumerate" and e.args:
+                s_ = self.sort(e.args[0])
+                el = s_[1] if isinstance(s_, tuple) and s_[0] == "seq" else None
+                first = _AX if self.axis_indexed(e.args[0]) else None
+                return ("seq", ("tuple", [first, el]))
+            if f == "range" and len(e.args) == 1 and (src(e.args[0]) in ("self._f.ndim", "self._layout.ndims", "self._nDims") or
+                                                     (isinstance(e.args[0], ast.Call) and src(e.args[0].func) == "len" and e.args[0].args
+                                                      and self.axis_indexed(e.args[0].args[0]))):
+                return ("seq", _AX)
+            if f == "dict" and len(e.args) == 1:
+                s_ = self.sort(e.args[0])
+                if isinstance(s_, tuple) and s_[0] == "seq" and isinstance(s_[1], tuple) and s_[1][0] == "tuple" and len(s_[1][1]) == 2:
+                    return ("dict", s_[1][1][0], s_[1][1][1])
+            if isinstance(e.func, ast.Attribute) and e.func.attr in ("get", "pop") and e.args:
+                d = self.sort(e.func.value)
+                if isinstance(d, tuple) and d[0] == "dict":
+                    self.need(e, e.args[0], d[1], f"the keys of `{src(e.func.value)}`", f"are {d[1]}s")
+                    return d[2]
+            if isinstance(e.func, ast.Attribute) and e.func.attr in ("items", "keys", "values") and not e.args:
+                d = self.sort(e.func.value)
+                if isinstance(d, tuple) and d[0] == "dict":
+                    return ("seq", {"items": ("tuple", [d[1], d[2]]), "keys": d[1], "values": d[2]}[e.func.attr])
+            if f == "int" and len(e.args) == 1:
+                return self.sort(e.args[0])
+            return None
+        if isinstance(e, ast.Subscript):
+            base = src(e.value)
+            if base == "self._layout.inv_dims_order" and not isinstance(e.slice, (ast.Slice, ast.Tuple)):
+                self.need(e, e.slice, _DM, "inv_dims_order", "maps a dimension number to the axis carrying it (the map from an axis to its "
+                          "dimension is dims_order)")
+                return _AX
+            if base == "self._layout.dims_order" and not isinstance(e.slice, (ast.Slice, ast.Tuple)):
+                self.need(e, e.slice, _AX, "dims_order", "maps an axis position to its dimension (the map from a dimension to the axis "
+                          "carrying it is inv_dims_order)")
+                return _DM
+            if base in _AXIS_TABLES and not isinstance(e.slice, (ast.Slice, ast.Tuple)):
+                self.need(e, e.slice, _AX, f"`{base}`", "is indexed by the axis position in the local block")
+                return _AXIS_TABLES[base]
+            d = self.sort(e.value)
+            if isinstance(d, tuple) and d[0] == "dict" and not isinstance(e.slice, ast.Slice):
+                self.need(e, e.slice, d[1], f"the keys of `{base}`", f"are {d[1]}s")
+                return d[2]
+            if isinstance(d, tuple) and d[0] == "idxlist" and not isinstance(e.slice, (ast.Slice, ast.Tuple)):
+                self.need(e, e.slice, _AX, f"the index list `{base}` of self._f", "has one entry per axis of the local block")
+            return None
+        if isinstance(e, ast.BinOp):
+            self.sort(e.left)
+            self.sort(e.right)
+            return None
+        if isinstance(e, (ast.Tuple, ast.List)):
+            return ("tuple", [self.sort(x) for x in e.elts])
+        if isinstance(e, ast.Attribute) and src(e) in _AXIS_TABLES:
+            return ("seq", _AXIS_TABLES[src(e)])
+        for ch in ast.iter_child_nodes(e):
+            if isinstance(ch, ast.expr):
+                self.sort(ch)
+        return None
+
+    def axis_indexed(self, e):
+        """is the sequence one whose positions are the axes of the local block (starts, ends, shape, a zip of them)?"""
+        if src(e) in _AXIS_TABLES:
+            return True
+        if isinstance(e, ast.Call) and src(e.func) == "zip" and e.args:
+            return all(self.axis_indexed(a) for a in e.args)
+        if isinstance(e, ast.Name):
+            return isinstance(self.env.get(e.id), tuple) and self.env[e.id][0] == "idxlist"
+        return False
+
+    def bind(self, t, s_, why=""):
+        if isinstance(t, ast.Name):
+            self.env[t.id] = s_
+            if s_ in (_AX, _DM) and why:
+                self.origin[t.id] = why
+        elif isinstance(t, (ast.Tuple, ast.List)):
+            parts = s_[1] if isinstance(s_, tuple) and s_[0] == "tuple" and len(s_[1]) == len(t.elts) else [None] * len(t.elts)
+            for x, y in zip(t.elts, parts):
+                self.bind(x, y, why)
+
+    def block(self, stmts):
+        for st in stmts:
+            if isinstance(st, ast.Assign) and len(st.targets) == 1:
+                v = st.value
+                t = st.targets[0]
+                if isinstance(t, ast.Name) and ("self._f.ndim" in src(v) or "np.s_[:]" in src(v)) and isinstance(v, (ast.BinOp, ast.List, ast.ListComp)):
+                    self.env[t.id] = ("idxlist",)
+                    continue
+                s_ = self.sort(v)
+                if isinstance(t, ast.Subscript):
+                    self.sort(t)
+                else:
+                    self.bind(t, s_, f" (`{src(st)[:50]}`)")
+            elif isinstance(st, ast.For):
+                s_ = self.sort(st.iter)
+                el = s_[1] if isinstance(s_, tuple) and s_[0] == "seq" else None
+                self.bind(st.target, el, f" (it runs over `{src(st.iter)[:60]}`)")
+                self.block(st.body)
+                self.block(st.orelse)
+            elif isinstance(st, (ast.If, ast.While)):
+                self.sort(st.test)
+                self.block(st.body)
+                self.block(st.orelse)
+            elif isinstance(st, (ast.Return, ast.Expr)) and st.value is not None:
+                self.sort(st.value)
+            elif isinstance(st, ast.AugAssign):
+                self.sort(st.value)
+                self.sort(st.target)
+            elif isinstance(st, (ast.With, ast.Try)):
+                self.block(st.body)
+        return self
+
+
+def _take_chain(fn, name, idxname):
+    """`name` starts as the real part of the local values and is then restricted, one fixed axis at a time, with
+    np.take(name, [local index], axis=axis) for the (axis, local index) pairs of the index table `idxname`: the values of the slice"""
+    defs = [n for n in ast.walk(fn) if isinstance(n, ast.Assign) and len(n.targets) == 1 and isinstance(n.targets[0], ast.Name)
+            and n.targets[0].id == name]
+    if len(defs) != 2:
+        return False
+    first, second = sorted(defs, key=lambda n: n.lineno)
+    if src(first.value) not in ("np.real(self._f)", "self._f.real", "self._f"):
+        return False
+    lp = parent(second)
+    if not (isinstance(lp, ast.For) and len(lp.body) == 1 and isinstance(lp.target, ast.Tuple) and len(lp.target.elts) == 2 and
+            all(isinstance(x, ast.Name) for x in lp.target.elts) and src(lp.iter) == f"{idxname}.items()"):
+        return False
+    ax, ix = (x.id for x in lp.target.elts)
+    v = second.value
+    if not (isinstance(v, ast.Call) and src(v.func) in ("np.take", "numpy.take") and v.args and src(v.args[0]) == name):
+        return False
+    kw = {k.arg: src(k.value) for k in v.keywords}
+    ind = src(v.args[1]) if len(v.args) > 1 else kw.get("indices")
+    axis = src(v.args[2]) if len(v.args) > 2 else kw.get("axis")
+    return ind in (f"[{ix}]", f"({ix},)") and axis == ax
 
 
 def extrema(chk):
@@ -1611,6 +2497,13 @@ def extrema(chk):
                 wrong = None
                 for a_ in asg:
                     v_ = a_.value
+                    if not isinstance(c0, bool):
+                        # counter: only `+= positive constant` (or name = name + positive constant) keeps what was counted
+                        from ..core import increment_of
+                        inc = increment_of(a_)
+                        if not (inc and inc[0] == name and isinstance(inc[1], ast.Constant) and type(inc[1].value) is int and inc[1].value > 0):
+                            wrong = a_
+                        continue
                     if isinstance(a_, ast.AugAssign):
                         if not isinstance(a_.op, (ast.BitAnd if c0 else ast.BitOr)):
                             wrong = a_
@@ -1621,7 +2514,10 @@ def extrema(chk):
                         continue
                     else:
                         wrong = a_
-                if wrong is None:
+                if wrong is None and not isinstance(c0, bool):
+                    okl, whyl = True, (f"{name} starts at 0 and is only counted up inside the loop over fixed axes: it is 0 after the loop iff "
+                                       "every fixed index is local")
+                elif wrong is None:
                     okl, whyl = True, (f"{name} starts {c0} and can only be switched to {not c0} inside the loop over fixed axes: a rank owns "
                                        "the slice iff it owns every fixed index")
                 else:
@@ -1629,6 +2525,29 @@ def extrema(chk):
                                         "last axis counts: a rank that misses an earlier fixed index but owns the last one contributes "
                                         "values from outside the slice")
                 break
+        if flag is None:
+            # recognised wrong form: a boolean set before the loop over the fixed axes and tested after it, never changed inside
+            for g in group:
+                for loop in [n for n in ast.walk(g) if isinstance(n, ast.For)]:
+                    guarded = [n for n in ast.walk(loop) if isinstance(n, ast.Assign) and isinstance(n.targets[0], ast.Subscript)
+                               and any(k_ == "if" for _, _, k_ in guards_of(n, stop=loop))]
+                    p_ = parent(loop)
+                    blk = next((getattr(p_, f_) for f_ in ("body", "orelse") if isinstance(getattr(p_, f_, None), list) and loop in getattr(p_, f_)), None)
+                    if not guarded or blk is None or any(isinstance(n, (ast.Return, ast.Break, ast.Raise)) for n in ast.walk(loop)):
+                        continue
+                    k_ = blk.index(loop)
+                    stored_in = {n.id for n in ast.walk(loop) if isinstance(n, ast.Name) and isinstance(n.ctx, ast.Store)}
+                    for pre in blk[:k_]:
+                        if isinstance(pre, ast.Assign) and len(pre.targets) == 1 and isinstance(pre.targets[0], ast.Name) and \
+                                isinstance(pre.value, ast.Constant) and isinstance(pre.value.value, bool) and pre.targets[0].id not in stored_in:
+                            nm = pre.targets[0].id
+                            tested = [s_ for s_ in blk[k_ + 1:] if isinstance(s_, ast.If) and any(isinstance(x, ast.Name) and x.id == nm
+                                                                                                 for x in ast.walk(s_.test))]
+                            if tested:
+                                okl, whyl = False, (f"`{nm}` is set to {pre.value.value} before the loop over the fixed axes and tested after it "
+                                                    f"(`{src(tested[0].test)[:40]}`) but never changed inside the loop: a process that does not own "
+                                                    "a fixed index skips the guarded store and still contributes the extremum of its un-restricted "
+                                                    "block, values from outside the requested slice")
         chk.ob("E7-ownership-latch", flag[2] if flag else fn, f"Grid.{m}: ownership flag", okl, whyl, file=U.GRID, func=q)
         # ---- fixed index -> local index
         oki, whyi, idxname = None, "the loop over the fixed axes was not found", None
@@ -1639,6 +2558,18 @@ def extrema(chk):
                 if r_[0] is not None or r_[2] is not None:
                     break
         chk.ob("E7-slice-index", fn, f"Grid.{m}: fixed index -> local index", oki, whyi, file=U.GRID, func=q)
+        # ---- sorts: dimension numbers and axis positions are not mixed in the lookups
+        bad_s, n_s = [], 0
+        for g in group:
+            so = _Sorts(g).block(g.body)
+            bad_s += so.bad
+            n_s += so.checked
+        if n_s:
+            chk.ob("E7-index-sorts", bad_s[0][0] if bad_s else fn, f"Grid.{m}: dimension numbers vs axis positions", not bad_s,
+                   f"{n_s} lookups in dims_order / inv_dims_order / starts / ends / the index list are made with the right kind of index"
+                   if not bad_s else "; ".join(dict.fromkeys(m_ for _, m_ in bad_s))[:600] + ": in every layout whose axis order is not "
+                   "its own inverse another axis (or none) is selected, so the extremum of another slice is reported",
+                   file=U.GRID, func=q)
         # ---- what every path hands to the reduction
         try:
             paths = _PathWalk({k: v for k, v in methods.items()}).run(fn)
@@ -1670,8 +2601,8 @@ def extrema(chk):
                     elif ts in ("self._f.size != 0", "self._f.size > 0", "self._f.size", "0 < self._f.size", "self._f.size >= 1"):
                         if not pol:
                             owns, why_not = False, "empty"
-                    elif flag and isinstance(t, ast.Name) and t.id == flag[0]:
-                        if pol != flag[1]:
+                    elif _flag_fact(t, flag) is not None:
+                        if (_flag_fact(t, flag) == "owns") != pol:
                             owns, why_not = False, "flag"
                     elif is_none:
                         if t.left.id in ("axis", "fixValue"):
@@ -1711,9 +2642,23 @@ def extrema(chk):
                 if fname is not None:
                     fname = {"min": "amin", "max": "amax"}.get(fname, fname)
                 sel = None
+                if isinstance(inner, ast.Name) and idxname and _take_chain(fn, inner.id, idxname):
+                    # vals = real(self._f); for dim, i in <index dict>.items(): vals = np.take(vals, [i], axis=dim)
+                    sel = "slice"
                 if inner is not None and isinstance(inner, ast.Call) and src(inner.func) == "np.real" and len(inner.args) == 1:
                     x = inner.args[0]
-                    if src(x) == "self._f":
+                    # a property of the class that only returns an expression stands for that expression
+                    if isinstance(x, ast.Attribute) and src(x.value) == "self" and x.attr in methods and \
+                            any(src(d_) == "property" for d_ in methods[x.attr].decorator_list):
+                        rs_ = [n for n in ast.walk(methods[x.attr]) if isinstance(n, ast.Return) and n.value is not None]
+                        if len(rs_) == 1:
+                            x = rs_[0].value
+                    if src(x).startswith("self._my_data[") and isinstance(x, ast.Subscript) and not isinstance(x.slice, ast.Slice):
+                        sel = "raw"
+                        bad.append(f"the local contribution is `{a0s[:60]}`, the extremum over the whole memory block `{src(x)[:40]}`: the block "
+                                   "is sized for the largest layout / largest block and is longer than the local data whenever the points do not "
+                                   "divide evenly, so stale or uninitialised entries enter the extremum (the local values are the view self._f)")
+                    elif src(x) == "self._f":
                         sel = "all"
                     elif isinstance(x, ast.Subscript) and src(x.value) == "self._f":
                         sx = src(x.slice)
@@ -1756,22 +2701,102 @@ def extrema(chk):
                file=U.GRID, func=q)
 
 
+def flatten_hierarchy(mod, class_names, method_names):
+    """classes that share code through a common base class of the same module are read as if they were written out: a method the
+    class inherits is looked up in its base(s); a method whose whole body is `return self.helper(<expressions>)` gets the body of
+    the helper (own or inherited) with the parameters replaced by those expressions.  Done on the in-memory tree of this run."""
+    from ..core import clone
+    classes = {st.name: st for st in mod.tree.body if isinstance(st, ast.ClassDef)}
+    done = []
+
+    def lookup(cls, name, depth=0):
+        c = classes.get(cls)
+        if c is None or depth > 4:
+            return None
+        for st in c.body:
+            if isinstance(st, ast.FunctionDef) and st.name == name:
+                return st
+        for b in c.bases:
+            bn = src(b).split(".")[-1]
+            r = lookup(bn, name, depth + 1)
+            if r is not None:
+                return r
+        return None
+    for cls in class_names:
+        c = classes.get(cls)
+        if c is None:
+            continue
+        own = {st.name: st for st in c.body if isinstance(st, ast.FunctionDef)}
+        for name in method_names:
+            if name not in own:
+                inh = lookup(cls, name)
+                if inh is not None and f"{cls}.{name}" not in mod._index:
+                    mod._index[f"{cls}.{name}"] = inh
+                    done.append(f"{cls}.{name} = inherited {getattr(inh, '_qual', inh.name)}")
+        for name, m in own.items():
+            body = [st for st in m.body if not (isinstance(st, ast.Expr) and isinstance(st.value, ast.Constant))]
+            if len(body) != 1 or not isinstance(body[0], ast.Return) or not isinstance(body[0].value, ast.Call):
+                continue
+            call = body[0].value
+            if not (isinstance(call.func, ast.Attribute) and src(call.func.value) == "self"):
+                continue
+            h = lookup(cls, call.func.attr)
+            if h is None or h is m:
+                continue
+            formals = [a.arg for a in h.args.args][1:]
+            if len(call.args) > len(formals) or any(k.arg not in formals for k in call.keywords) or \
+                    any(isinstance(a, ast.Starred) for a in call.args):
+                continue
+            bind = dict(zip(formals, call.args))
+            bind.update({k.arg: k.value for k in call.keywords})
+            for f_, d_ in zip(formals[len(formals) - len(h.args.defaults):], h.args.defaults):
+                bind.setdefault(f_, d_)
+            stored = {n.id for n in ast.walk(h) if isinstance(n, ast.Name) and isinstance(n.ctx, ast.Store)}
+            if any(f_ not in bind for f_ in formals) or (stored & set(formals)) or \
+                    (stored & {n.id for a in bind.values() for n in ast.walk(a) if isinstance(n, ast.Name)}):
+                continue
+
+            class Bind(ast.NodeTransformer):
+                def visit_Name(self, n):
+                    if isinstance(n.ctx, ast.Load) and n.id in bind:
+                        return clone(bind[n.id])
+                    return n
+            new_body = [Bind().visit(st) for st in clone([st for st in h.body if not (isinstance(st, ast.Expr) and isinstance(st.value, ast.Constant))])]
+            doc = [st for st in m.body if isinstance(st, ast.Expr) and isinstance(st.value, ast.Constant)]
+            m.body = doc + new_body
+            ast.fix_missing_locations(m)
+            done.append(f"{cls}.{name} <- {call.func.attr}({', '.join(f'{k}={src(v)[:30]}' for k, v in bind.items())})")
+    if done:
+        mod._link()
+    return done
+
+
 def run(chk):
+    for rel_ in (U.NORMS, U.ENERGY):
+        merged = flatten_hierarchy(chk.mod(rel_), [c for r, c, _ in CLASSES if r == rel_], ["__init__"] + [m for r, _, m in CLASSES if r == rel_])
+        if merged:
+            chk.note("shared code read as written out: " + "; ".join(merged))
     chk.explanation = (
         "Engine W (abstract interpretation of the four diagnostic constructors, helper functions followed): self._factor1 is a "
         "separable tensor whose factor on the axis carrying r is the [start:end) block of (trapezoid weight x r) of the global r grid "
         "and whose factor on the axis carrying v is the block of the trapezoid weight (x v^2 for the energy), for both orders of the "
         "two axes and for the 3-D potential; self._factor2 = dq dz (x 1/2); engine C types the named windows; the value returned by "
         "each norm method as a formula of f = a + i b, the weights and the volume factor; the coordinate arrays are only read; "
-        "DiagnosticCollector: classes/layouts/arguments of the eight rows, reduction op and result array per row, square roots only "
-        "after the sums, printed column order; Grid.getMin/getMax: what every symbolic path (helpers followed) hands to the reduction, "
-        "ownership latch, fixed global index -> axis and local index, query purity. The slot<->step relation of the driver's "
+        "DiagnosticCollector (relational: collect, reduce and getLine are compared with one another, the row a quantity lives in is "
+        "their private convention): every documented quantity (class/layout/argument of its norm object) is written to one row, "
+        "through direct stores, a view of the slot's column or a whole-column store; that row is reduced with the operation of the "
+        "quantity into its own result array (calls in loops over literal tables enumerated); square roots only on the result arrays "
+        "of the two L2 rows after the sums; getLine prints the result arrays in the documented order; Grid.getMin/getMax: what every "
+        "symbolic path (helpers followed) hands to the reduction, ownership latch (boolean, or a counter of non-local fixed indices), "
+        "fixed global index -> axis and local index (ownership test in positive or negated form), a sort inference keeping dimension "
+        "numbers and axis positions apart in every lookup (dims_order / inv_dims_order / starts / ends / index list / tables keyed by "
+        "the caller's axis numbers), query purity; the slot of collect is (t // dt) modulo the number of slots allocated. The slot<->step relation of the driver's "
         "printing and the analytic volume factors are not decided.")
     chk.assumptions += ["theta and z grids are uniform (x_d(k) = a_d + k h_d): the rectangle rule's spacing may be taken between any two "
                         "neighbouring points", "1 <= number of points per block; at least 3 points in r and v"]
     chk.in_file(U.NORMS)
-    weight_windows(chk)
-    weight_tensor(chk)
+    placed = weight_tensor(chk)
+    weight_windows(chk, placed)
     integrands(chk)
     coordinates_read_only(chk)
     collector(chk)
